@@ -460,7 +460,18 @@ def run_runs(case):
     def vf_cond(test):
       test.measurements.vf_cond = 1
 
-    head += [H.diagnose(cond_diag)(vf_diag), vf_cond]
+    # the same in a phase that is only *recorded as skipped* (its subtest has
+    # failed): building its record must not touch the declared measurement
+    def vf_fail_sub(test):
+      return H.PhaseResult.FAIL_SUBTEST
+
+    @H.measures(H.Measurement('vf_cond_skipped').validate_on(
+        {CondRes.SEEN: H.util.validators.in_range(0, 1)}))
+    def vf_cond_skipped(test):
+      test.measurements.vf_cond_skipped = 1
+
+    head += [H.diagnose(cond_diag)(vf_diag), vf_cond,
+             H.Subtest('vf_failed_sub', vf_fail_sub, vf_cond_skipped)]
   t = H.Test(*(head + b.nodes), vf_nested={'hist': [], 'count': {'n': 0}})
   plug_loggers = {cls: cls.logger for cls in b.plug_classes.values()}
   if cfg.get('sof') == 'opt':
